@@ -10,7 +10,7 @@
 (*   - which inputs must be accepted / must be refused / are left open;    *)
 (*   - the observable state `obs` (a fold of events) and `Judge`, which    *)
 (*     names the first clause of C17 an event breaks.                      *)
-(* Text is Seq(0..255) (character codes); L is the hash length in bytes    *)
+(* Text is a sequence of code points (bytes are Seq(0..255)); L is the hash length in bytes    *)
 (* (32 on real executions, 2 in the model).  Keccak-256 is uninterpreted:  *)
 (* every build event carries one point <<orc_of, orc_is>> of its graph,    *)
 (* computed by an implementation that is independent of the code under     *)
@@ -89,7 +89,9 @@ IterStatus(it) ==
     ELSE IF CleanDec(it.s) THEN (IF InRange(DecVal(it.s)) THEN "ok" ELSE "bad")
     ELSE IF CleanNeg(it.s) THEN (IF DecVal(Tail(it.s)) = 0 THEN "free" ELSE "bad")
     ELSE IF CleanHexI(it.s) THEN (IF InRange(HexNum(SubSeq(it.s, 3, Len(it.s)))) THEN "ok" ELSE "bad")
-    ELSE IF OtherBase(it.s) \/ JunkStr(it.s) THEN "bad" ELSE "free"
+    ELSE IF OtherBase(it.s) THEN "bad"
+    ELSE IF \E i \in 1..Len(it.s) : it.s[i] > 127 THEN "free"      \* digits of another script, ...
+    ELSE IF JunkStr(it.s) THEN "bad" ELSE "free"
 IterValue(it) ==
     IF it.form = "int" THEN it.val
     ELSE IF CleanDec(it.s) THEN DecVal(it.s) ELSE HexNum(SubSeq(it.s, 3, Len(it.s)))
@@ -134,7 +136,8 @@ SigBytes(s) == FromHex(OnlyHex(s))
 (*            signing key)                                                 *)
 (*  roundtrip save; load; save: ok, after = [hash, iter, sigs], f1, f2     *)
 (*  apdu      one device exchange: apdu, sw, resp                          *)
-(*  outcome   the authorize command ended: authorized ("t"|"f")            *)
+(*  outcome   the authorize command ended: authorized ("t"|"f"), exc =     *)
+(*            class of the exception that escaped ("none" if none)         *)
 (***************************************************************************)
 InitObs == [st |-> "none",          \* none | built | refused
             h |-> <<>>, n |-> 0, sigs |-> <<>>,   \* the authorization held (bytes, int, texts)
@@ -144,6 +147,11 @@ InitObs == [st |-> "none",          \* none | built | refused
             err |-> FALSE,          \* some SIGN exchange answered with an error
             done |-> FALSE]         \* device said "authorised"
 
+\* how the authorize command may fail after it has started talking to the device: the device never
+\* reported "authorised" (HSM2DongleError), answered an error status word (HSM2DongleErrorResult), the
+\* link failed; do_authorize_signer reports every failure as AdminError
+DocumentedErrors == {"HSM2DongleError", "HSM2DongleErrorResult", "HSM2DongleTimeoutError",
+                     "HSM2DongleCommError", "AdminError"}
 IsAuthApdu(e) == Len(e.apdu) >= 2 /\ e.apdu[2] = SIGNER_AUTH
 Success(e)    == e.sw = SW_OK /\ Len(e.resp) >= 4 /\ e.resp[4] = 2
 
@@ -213,6 +221,8 @@ Judge(o, e, L) ==
         ELSE ""
     ELSE IF e.k = "outcome" THEN
         IF (e.authorized = "t") # o.done THEN "AuthorizedIff"
+        \* once the conversation has begun the command ends authorised or with a documented error
+        ELSE IF e.authorized = "f" /\ o.sent > 0 /\ e.exc \notin DocumentedErrors THEN "DocumentedFailure"
         ELSE IF o.st = "built" /\ o.sent = 0 THEN "SigVerFirst"          \* nothing was sent at all
         ELSE IF o.st = "built" /\ ~o.done /\ o.sigver = "ok" /\ ~o.err
                 /\ o.sent # 1 + Len(o.sigs) THEN "AllSentBeforeFailing"
